@@ -77,7 +77,7 @@ def gen(rng, tier):
     model = copy.deepcopy(net)
     ops = []
     cnt = 0
-    n_ops = rng.randint(2, 14)
+    n_ops = rng.randint(10, 30) if (tier == "thorough" and rng.random() < 0.3) else rng.randint(2, 14)
     for _ in range(n_ops):
         nodes = model["nodes"]
         names = list(nodes)
